@@ -938,6 +938,212 @@ def run_num_specs(ctx, specs, label, quiet=False, mutate=None, observed=()):
     return verdicts, infos, stats
 
 
+# ------------------------------------------------------------------ create/split_joint_distribution on real models
+JTAGS = {
+    51: 'create_joint_distribution random variables differ from model', 52: 'create_joint_distribution parameters differ from model',
+    56: 'split_joint_distribution differs from model',
+    53: 'a new covariance parameter is not named after the parameters of its two random variables',
+    54: 'names of the random variables not preserved', 55: 'a variance changed',
+    57: 'split_joint_distribution dropped a variance parameter or kept an unused covariance parameter',
+    58: 'create_joint_distribution changed the value of an existing parameter',
+}
+JCORR = (51, 52, 56)
+JORACLE = {53: (JCORR, 251, 'C11-CJD-COV-PARAM-MISNAMED'), 54: (JCORR, None, None), 55: (JCORR, None, None),
+           57: (JCORR, None, None), 58: (JCORR, None, None)}
+JIMPORTS = 'Base.PyData Base.Expr C11.Model C11.NumModel C11.JdModel C11.JdCheck'
+_JD_BASE = {}
+
+
+def jd_base(kind):
+    if kind not in _JD_BASE:
+        from pharmpy.modeling import add_iiv, load_example_model
+        m = load_example_model('pheno')
+        if kind == 'pheno_s1':
+            m = add_iiv(m, ['S1'], 'exp')
+        _JD_BASE[kind] = m
+    return _JD_BASE[kind]
+
+
+def gen_jd_spec(rng):
+    base = rng.choice(['pheno', 'pheno_s1', 'pheno_s1'])
+    etas = ['ETA_CL', 'ETA_VC'] + (['ETA_S1'] if base == 'pheno_s1' else [])
+    ops = []
+    k = rng.choice([2, 2, len(etas), len(etas), 1])
+    first = rng.sample(etas, k)
+    if rng.random() < 0.5:
+        first = sorted(first, key=etas.index)
+    ops.append(['cjd', first])
+    if rng.random() < 0.7 and k >= 2:
+        ops.append(['split', rng.sample(first, rng.choice([1, 1, len(first)]))])
+        if rng.random() < 0.5:
+            ops.append(['cjd', rng.sample(etas, len(etas))])
+    return {'kind': 'jd', 'base': base, 'ops': ops}
+
+
+def observe_jd(spec):
+    """One jcase term per operation of the history."""
+    import numpy as np
+    import pharmpy.model.random_variables as rvm
+    from pharmpy.model import NormalDistribution
+    from pharmpy.modeling import create_joint_distribution, split_joint_distribution
+    model = jd_base(spec['base'])
+    terms = []
+    for op in spec['ops']:
+        names = CNames()
+        for q in PARAMNAMES:
+            names.get(q)
+
+        def sym(e):
+            return 'None' if e == 0 else f'(Some {names.p(e.name)})'
+
+        def rterm(rvs):
+            out = []
+            for d in rvs:
+                lev = ct.pos(level_id(d.level, names))
+                if isinstance(d, NormalDistribution):
+                    out.append(f"(Normal {names.p(d.names[0])} {lev} {sym(d.mean)} {sym(d.variance)})")
+                else:
+                    V, mu = d.variance, d.mean
+                    rows = ct.lst([ct.lst([sym(V[i, j]) for j in range(V.cols)]) for i in range(V.rows)])
+                    out.append(f"(Joint {ct.lst([names.p(x) for x in d.names])} {lev} "
+                               f"{ct.lst([sym(mu[i, 0]) for i in range(mu.rows)])} {rows})")
+            return ct.lst(out)
+
+        def pterm(m):
+            return ct.lst([ct.pair(names.p(k), fq(v)) for k, v in m.parameters.inits.items()])
+        before = model
+        sq = {float(v): float(np.sqrt(v)) for v in before.parameters.inits.values() if v >= 0}
+        seen = {}
+        try:
+            if op[0] == 'cjd':
+                orig = rvm.RandomVariables.join
+
+                def spy(self, inds, fill=0, name_template=None, param_names=None):
+                    seen['pn'] = list(param_names)
+                    return orig(self, inds, fill=fill, name_template=name_template, param_names=param_names)
+                rvm.RandomVariables.join = spy
+                try:
+                    after = create_joint_distribution(before, list(op[1]))
+                finally:
+                    rvm.RandomVariables.join = orig
+                pn = seen['pn']
+            else:
+                after = split_joint_distribution(before, list(op[1]))
+                pn = None
+        except ValueError:
+            after = None
+            pn = (seen.get('pn') or [f'x{k}' for k in range(len(op[1]))]) if op[0] == 'cjd' else None
+        if pn is not None:
+            for q in pn:
+                names.get(q)
+            names.register_template('IIV_{}_IIV_{}', pn)
+        rb, pb = rterm(before.random_variables), pterm(before)       # registers every old name first
+        if op[0] == 'cjd':
+            opt = f"(JCreate {ct.lst([names.p(x) for x in op[1]])} {ct.lst([names.p(q) for q in pn])})"
+        else:
+            opt = f"(JSplit {ct.lst([names.p(x) for x in op[1]])})"
+        out = 'None' if after is None else f"(Some {ct.pair(rterm(after.random_variables), pterm(after))})"
+        terms.append(f"(mkJCase {rb} {pb} {opt} {out} {ct.lst([ct.pair(fq(k), fq(v)) for k, v in sq.items()])})")
+        if after is not None:
+            model = after
+    return terms
+
+
+def classify_jd(ctx, spec, tags):
+    tags = set(tags)
+    status = 'ok'
+    for t in sorted(t for t in tags if t in JORACLE):
+        need_absent, guard_tag, fid = JORACLE[t]
+        explained = not any(c in tags for c in need_absent)
+        if explained and guard_tag in tags and fid and ctx.open_finding(fid):
+            ctx.coverage.setdefault('known_hits', {}).setdefault(fid, 0)
+            ctx.coverage['known_hits'][fid] += 1
+            if status == 'ok':
+                status = 'known'
+        else:
+            ctx.violation(JTAGS[t], {'spec': spec, 'tags': sorted(tags), 'tag_meaning': JTAGS[t]})
+            status = 'violation'
+    corr = [t for t in tags if t in JCORR]
+    if corr and status != 'violation':
+        ctx.broken.append('correspondence C11 create/split_joint_distribution model vs implementation: '
+                          + ', '.join(JTAGS[t] for t in corr) + ' on ' + json.dumps(spec))
+        status = 'broken'
+    return status
+
+
+def run_jd_specs(ctx, specs, label, quiet=False):
+    terms, owner = [], []
+    for k, spec in enumerate(specs):
+        for t in observe_jd(spec):
+            terms.append(t)
+            owner.append(k)
+    verdicts = ctx.run_cases(label, JIMPORTS, 'jcase', terms, 'jverdict', shard=60)
+    per = [[] for _ in specs]
+    for k, v in zip(owner, verdicts):
+        per[k] += v
+    if quiet:
+        return per, None
+    stats = {'ok': 0, 'known': 0, 'violation': 0, 'broken': 0}
+    for spec, tags in zip(specs, per):
+        stats[classify_jd(ctx, spec, tags)] += 1
+    return per, stats
+
+
+# ------------------------------------------------------------------ precision-matrix conversions (modeling/math.py)
+PTAGS = {61: 'calculate_se/corr_from_cov differs from model', 62: 'calculate_prec_from_cov / cov_from_prec differs from model',
+         63: 'calculate_se/corr_from_prec differs from model', 64: 'calculate_cov/prec_from_corrse differs from model',
+         65: 'cov -> (corr, se) -> cov is not the identity', 66: 'prec_from_corrse(corr_from_cov, se_from_cov) differs from prec_from_cov',
+         67: 'cov -> prec -> cov is not the identity'}
+PCORR = (61, 62, 63, 64)
+
+
+def gen_prec_spec(rng):
+    n = rng.choice([1, 2, 3, 4])
+    _, A = gen_block_values(rng, n, force=rng.choice(['pd', 'pd', 'pd_nonneg']))
+    return {'kind': 'prec', 'cov': A}
+
+
+def observe_prec(spec):
+    import numpy as np
+    import pandas as pd
+    import pharmpy.modeling as pm
+    n = len(spec['cov'])
+    idx = [f'P{i}' for i in range(n)]
+    S = pd.DataFrame([[float(F(x)) for x in row] for row in spec['cov']], index=idx, columns=idx)
+    se_cov = pm.calculate_se_from_cov(S)
+    corr_cov = pm.calculate_corr_from_cov(S)
+    P = pm.calculate_prec_from_cov(S)
+    cov_prec = pm.calculate_cov_from_prec(P)
+    se_prec = pm.calculate_se_from_prec(P)
+    corr_prec = pm.calculate_corr_from_prec(P)
+    cov_corrse = pm.calculate_cov_from_corrse(corr_cov, se_cov)
+    prec_corrse = pm.calculate_prec_from_corrse(corr_cov, se_cov)
+    invs = [(S.values, np.linalg.inv(S.values)), (P.values, np.linalg.inv(P.values)),
+            (cov_corrse.values, np.linalg.inv(cov_corrse.values))]
+    sq = {}
+    for M in (S.values, np.linalg.inv(P.values)):
+        for i in range(n):
+            sq[float(M[i, i])] = float(np.sqrt(M[i, i]))
+    vec = lambda v: ct.lst([fq(x) for x in v])
+    return ("(mkPCase " + qmat(S.values) + " " + ct.lst([ct.pair(qmat(a), qmat(b)) for a, b in invs]) + " "
+            + ct.lst([ct.pair(fq(k), fq(v)) for k, v in sq.items()]) + "\n " + vec(se_cov.values) + " " + qmat(corr_cov.values)
+            + " " + qmat(P.values) + "\n " + qmat(cov_prec.values) + " " + vec(se_prec.values) + " " + qmat(corr_prec.values)
+            + "\n " + qmat(cov_corrse.values) + " " + qmat(prec_corrse.values) + ")")
+
+
+def run_prec_specs(ctx, specs, label):
+    terms = [observe_prec(s) for s in specs]
+    verdicts = ctx.run_cases(label, NIMPORTS, 'pcase', terms, 'pverdict', shard=100)
+    for spec, tags in zip(specs, verdicts):
+        tags = set(tags)
+        for t in sorted(t for t in tags if t in (65, 66, 67)):
+            ctx.violation(PTAGS[t], {'spec': spec, 'tags': sorted(tags), 'tag_meaning': PTAGS[t]})
+        if tags & set(PCORR) and not tags & {65, 66, 67}:
+            ctx.broken.append('correspondence C11 precision conversions model vs implementation: '
+                              + ', '.join(PTAGS[t] for t in sorted(tags & set(PCORR))) + ' on ' + json.dumps(spec))
+    return verdicts
+
+
 # ------------------------------------------------------------------ classification
 def classify(ctx, spec, tags):
     tags = set(tags)
@@ -1043,6 +1249,14 @@ def finding_probes(ctx):
     for f in ctx.findings:
         if f.get('status') != 'open' or f['id'] in fixed_ids:
             continue
+        if f.get('kind', 'algebra') == 'jd':
+            per, _ = run_jd_specs(ctx, [f['witness']], 'finding-' + f['id'], quiet=True)
+            tags = set(per[0])
+            if f['expect_tag'] in tags and not any(c in tags for c in JCORR):
+                ctx.known(f['id'])
+            else:
+                ctx.notes.append(f"finding_not_reproduced {f['id']} (tags {sorted(tags)})")
+            continue
         if f.get('kind', 'algebra') == 'num':
             verdicts, _, _ = run_num_specs(ctx, [f['witness']], 'finding-' + f['id'], quiet=True)
             tags = set(verdicts[0]) if verdicts else set()
@@ -1081,7 +1295,7 @@ def run(ctx):
     nreg = len(specs)
     specs += exhaustive_specs(ctx.tier)
     ctx.coverage['exhaustive_index_set_histories'] = len(specs) - nreg
-    n = 500 if ctx.tier == 'quick' else 5000
+    n = 400 if ctx.tier == 'quick' else 5000
     observed = pgen(ctx, _alg_chunk, n)
     ctx.log(f'{nreg} regression + {len(specs) - nreg} exhaustive + {len(observed)} generated histories observed')
     kept, verdicts, infos, stats = run_specs(ctx, specs, 'gen', observed=observed)
@@ -1113,7 +1327,7 @@ def run(ctx):
     # ---- numeric side: sd/corr, PSD repair, UCP
     nspecs = [json.loads(p.read_text()) for p in reg]
     nspecs = [s for s in nspecs if s.get('kind') == 'num']
-    nn = 80 if ctx.tier == 'quick' else 800
+    nn = 60 if ctx.tier == 'quick' else 800
     nobserved = pgen(ctx, _num_chunk, nn, per=10)
     nverdicts, ninfos, nstats = run_num_specs(ctx, nspecs, 'num', observed=nobserved)
     nspecs = nspecs + [o[0] for o in nobserved]
@@ -1139,7 +1353,26 @@ def run(ctx):
         'negative_cholesky_entry': sum(1 for v in nverdicts if 241 in v),
     }
     ctx.coverage['samples'] += [{'spec': s, 'tags': v} for s, v in list(zip(nspecs, nverdicts))[:2]]
+    # ---- create_joint_distribution / split_joint_distribution on real models
+    jspecs = [s for s in (json.loads(p.read_text()) for p in reg) if s.get('kind') == 'jd']
+    jspecs += [gen_jd_spec(ctx.rng) for _ in range(14 if ctx.tier == 'quick' else 150)]
+    jper, jstats = run_jd_specs(ctx, jspecs, 'jd')
+    ctx.log('create/split_joint_distribution histories checked')
+    ctx.coverage['evaluations'] += sum(len(s['ops']) for s in jspecs)
+    ctx.coverage['joint_distribution_histories'] = len(jspecs)
+    ctx.coverage['joint_distribution_case_status'] = jstats
+    ctx.coverage['input_distribution']['joint_distribution'] = {
+        'operations': sum(len(s['ops']) for s in jspecs),
+        'argument_not_in_collection_order': sum(1 for v in jper if 251 in v),
+    }
+    pspecs = [s for s in (json.loads(p.read_text()) for p in reg) if s.get('kind') == 'prec']
+    pspecs += [gen_prec_spec(ctx.rng) for _ in range(40 if ctx.tier == 'quick' else 400)]
+    pverd = run_prec_specs(ctx, pspecs, 'prec')
+    ctx.coverage['evaluations'] += len(pspecs)
+    ctx.coverage['precision_conversion_cases'] = len(pspecs)
+    ctx.log('precision-matrix conversions checked')
     ctx.assumptions += [
+        'create_joint_distribution: the parameter names derived from the model statements and the individual-estimates branch of _choose_cov_param_init are inputs/oracles; the tie runs on pheno-based models (2-3 etas) without individual estimates',
         'numpy/LAPACK eig, svd, cholesky are engines: PSD test results, repaired matrices and Cholesky factors are taken from the implementation as tables; PSD(nearest(A)) is validated by an exact rational elimination test with tolerance 1e-8*(1+max|a_ij|), not proved',
         'float arithmetic of the implementation is compared with exact rational arithmetic of the model with relative tolerance 1e-9',
         'theta part of the UCP scaling (log/exp) is tied only through the round-trip oracle; its algebra is proved over R',
@@ -1148,6 +1381,16 @@ def run(ctx):
 
 def replay(ctx, rep):
     spec = rep['spec']
+    if spec.get('kind') == 'prec':
+        v = ctx.run_cases('replay', NIMPORTS, 'pcase', [observe_prec(spec)], 'pverdict')[0]
+        print('spec', json.dumps(spec))
+        print('tags', v, [PTAGS.get(t, t) for t in v])
+        return 1 if v else 0
+    if spec.get('kind') == 'jd':
+        per, _ = run_jd_specs(ctx, [spec], 'replay', quiet=True)
+        print('spec', json.dumps(spec))
+        print('tags', per[0], [JTAGS.get(t, t) for t in per[0]])
+        return 1 if any(t in JORACLE or t in JCORR for t in per[0]) else 0
     if spec.get('kind') == 'num':
         verdicts, _, _ = run_num_specs(ctx, [spec], 'replay', quiet=True)
         tags = verdicts[0]
